@@ -15,15 +15,15 @@ CHECKS = {
                       "domain its callers use (key present, or unrelated to every key of a prefix-free trie).",
         "parts": [
             {"part": "alloc-exh", "pkg": KS, "test": "TestVerif_C18_AllocExh", "kind": "enum", "quick": 1, "thorough": 1, "shards": 1},
-            {"part": "alloc-256", "pkg": KS, "test": "TestVerif_C18_Alloc256", "quick": 3000, "thorough": 40000},
+            {"part": "alloc-256", "pkg": KS, "test": "TestVerif_C18_Alloc256", "quick": 3000, "thorough": 20000},
         {"part": "alloc-256-gofuzz", "pkg": KS, "fuzz": "FuzzVerif_C18_Alloc256", "fuzz_seconds": 30, "quick": 0, "thorough": 0, "test": "FuzzVerif_C18_Alloc256"},
-            {"part": "regions", "pkg": KS, "test": "TestVerif_C18_Regions", "quick": 3000, "thorough": 40000},
+            {"part": "regions", "pkg": KS, "test": "TestVerif_C18_Regions", "quick": 3000, "thorough": 25000},
         {"part": "regions-gofuzz", "pkg": KS, "fuzz": "FuzzVerif_C18_Regions", "fuzz_seconds": 45, "quick": 0, "thorough": 0, "test": "FuzzVerif_C18_Regions"},
             {"part": "prefixops-exh", "pkg": KS, "test": "TestVerif_C18_PrefixOpsExh", "kind": "enum", "quick": 1, "thorough": 1, "shards": 1},
             {"part": "subtract-exh", "pkg": KS, "test": "TestVerif_C18_SubtractExh", "kind": "enum", "quick": 1, "thorough": 1, "shards": 1},
-            {"part": "prefixops-rand", "pkg": KS, "test": "TestVerif_C18_PrefixOpsRand", "quick": 2000, "thorough": 30000},
+            {"part": "prefixops-rand", "pkg": KS, "test": "TestVerif_C18_PrefixOpsRand", "quick": 2000, "thorough": 20000},
         {"part": "prefixops-rand-gofuzz", "pkg": KS, "fuzz": "FuzzVerif_C18_PrefixOpsRand", "fuzz_seconds": 45, "quick": 0, "thorough": 0, "test": "FuzzVerif_C18_PrefixOpsRand"},
-            {"part": "shortest-covered", "pkg": KS, "test": "TestVerif_C18_ShortestCovered", "quick": 3000, "thorough": 40000},
+            {"part": "shortest-covered", "pkg": KS, "test": "TestVerif_C18_ShortestCovered", "quick": 3000, "thorough": 20000},
         ],
     },
 }
@@ -321,6 +321,18 @@ MANIFEST_HEAD = {
     "engines": [
         {"name": "driver", "path": "bin/check", "serves_properties": [], "kind_free_text": "python3 driver: overlay+modfile build from /repo's working tree, sharding, evidence merge, replay, known findings"},
         {"name": "model", "path": "harness/provider/internal", "serves_properties": ["C18", "C19"], "kind_free_text": "brute-force reference models over bit strings; exhaustive small scope + rapid"},
+        {"name": "simnet", "path": "harness/internal/verifnet", "serves_properties": ["C01", "C02", "C03", "C04", "C06", "C08", "C09", "C10", "C12", "C13", "C14", "C15", "C16"],
+         "kind_free_text": "fake host/network/streams + simulated peers behind pb.MessageSender and Connect (exchange log with virtual timestamps), run inside testing/synctest bubbles (verifsim.Bubble: panics, deadlocks, goroutines left, wedges become reported outcomes)"},
+        {"name": "storesched", "path": "harness/internal/verifsim", "serves_properties": ["C05", "C07", "C20"],
+         "kind_free_text": "journaling / fault-injecting / gateable datastore with crash-prefix reconstruction (ds.go) and a cooperative actor scheduler with goroutine-state probe for mutex-blocking code (sched.go)"},
+        {"name": "sweepsim", "path": "harness/provider", "serves_properties": ["C17"],
+         "kind_free_text": "simulated swarm (router + message sender over a SHA-256 prefix-indexed peer pool) for the sweeping provider, stepped minute by minute in virtual time; ADD_PROVIDER log oracle with a brute-force nearest-r reference"},
+        {"name": "wire", "path": "harness/internal/net", "serves_properties": ["C10", "C11"],
+         "kind_free_text": "the real message sender over in-memory stream pairs with scripted responders; build-tag yield points give the harness the interleavings of the sender bookkeeping"},
+        {"name": "rt-gate", "path": "harness/internal/verifsim/rtcalls.go", "serves_properties": ["C14"],
+         "kind_free_text": "real-time call tracking for code whose Close paths wait on sync.Once / mutexes (which freeze a synctest bubble): the harness owns the schedule through a gate inside a wrapped provider / datastore / router and a goroutine-state probe"},
+        {"name": "gofuzz", "path": "harness/internal/verifsim/check.go", "serves_properties": ["C09", "C10", "C11", "C18", "C19"],
+         "kind_free_text": "RunFuzz: go test -fuzz over the byte stream behind rapid's generators (rapid.MakeFuzz), same oracle as the rapid-driven part; thorough tier only"},
     ],
     "notes": "All checks are property-based tests (pgregory.net/rapid v1.3.0) or exhaustive small-scope enumerations with explicit oracles, "
              "compiled into the repository's own packages through a build overlay. See DESIGN.md.",
